@@ -18,7 +18,8 @@ ASSUMPTIONS = ["-k feedback is judged only when no written-back hydrogen lies wi
                "counted as inconclusive"]
 TIMEOUT = {"quick": 1800, "thorough": 10800}
 EDITS = ("ignorable", "hydrogens-own", "hydrogens-random", "records", "columns", "truncate",
-         "protonate-all", "keep-protons-feedback", "hydrogens-random+protonate-all", "ignorable+records+columns")
+         "protonate-all", "keep-protons-feedback", "hydrogens-random+protonate-all", "ignorable+records+columns",
+         "keep-protons-feedback-all")
 IGNORABLE = ("HOH", "H2O", "SO4", "PO4", "PEG", "EPE", "TRS")
 
 
@@ -26,7 +27,7 @@ def generate(tier, seed):
     from .. import sources
     cases = []
     for name in sources.PROTEINS:
-        for e in ("ignorable", "protonate-all", "keep-protons-feedback", "columns", "hydrogens-own"):
+        for e in ("ignorable", "protonate-all", "keep-protons-feedback", "columns", "hydrogens-own", "keep-protons-feedback-all"):
             cases.append({"kind": "file", "file": name, "edit": e, "seed": "%d:%s:%s" % (seed, name, e), "cost": 120})
     for name in sources.SMALL + sources.MULTICONF:
         for e in ("records", "ignorable", "protonate-all"):
@@ -154,6 +155,23 @@ def hydrogen_contacts(recs_with_h):
     return bad
 
 
+def without_contact_hydrogens(recs, hyd):
+    """The hydrogens whose parent has no hydrogen within 1.5 A of a second heavy atom (such a hydrogen
+    is bonded to both by the distance rule when it is read from a file; its parent is left to be
+    protonated again by the program, which puts the same hydrogens back)."""
+    import numpy as np
+    from .. import pdbio
+    X = np.array([(r.x, r.y, r.z) for r in pdbio.atoms(recs) if r.elem() != "H"], dtype=np.float64)
+    bad_parents = set()
+    for h in hyd:
+        if not h["parents"]:
+            continue
+        p = np.array([v * 1000.0 for v in h["xyz"]])
+        if int((((X - p) ** 2).sum(axis=1) < 1500.0 ** 2).sum()) > 1:
+            bad_parents.add(tuple(h["parents"][0]))
+    return [h for h in hyd if h["parents"] and tuple(h["parents"][0]) not in bad_parents], len(bad_parents)
+
+
 def run_case(case, tier):
     from .. import obs, pdbio, sources, util
     rng = random.Random(case["seed"])
@@ -165,7 +183,8 @@ def run_case(case, tier):
         recs = sources.random_small_structure(rng, 80, 900)
     else:
         recs, _ = sources.chimera(rng)
-    if case["kind"] != "file" and edit != "keep-protons-feedback" and rng.random() < 0.35:
+    feedback = edit in ("keep-protons-feedback", "keep-protons-feedback-all")
+    if case["kind"] != "file" and not feedback and rng.random() < 0.35:
         # ligands of the fragment library (amines, amidinium, guanidinium, carboxylate, rings ...)
         # next to an ionizable side chain: their typing must not depend on hydrogens either
         from .. import fragments
@@ -177,11 +196,11 @@ def run_case(case, tier):
             if frag:
                 recs = recs + frag
                 classes.append("ligand-fragment:" + fname)
-    if edit == "keep-protons-feedback" and not amino_only(recs):
+    if feedback and not amino_only(recs):
         recs = [r for r in recs if r.raw is not None or r.tag == "ATOM  "]
-    recs = sources.no_hydrogens(recs) if edit in ("keep-protons-feedback",) else recs
+    recs = sources.no_hydrogens(recs) if feedback else recs
     text = pdbio.dump(recs)
-    need_atoms = edit in ("hydrogens-own", "keep-protons-feedback")
+    need_atoms = edit in ("hydrogens-own", "keep-protons-feedback", "keep-protons-feedback-all")
     base = obs.run_single(text, with_atoms=need_atoms)
     counts["pipeline_runs"] = 1
     desc = sources.describe(recs)
@@ -228,6 +247,16 @@ def run_case(case, tier):
         if len(base.rec["names"]) != 1:
             return util.finish(case, viol, counts, classes, False, desc, inconclusive="multi-conformation input")
         hyd = base.rec["confs"][base.rec["names"][0]]["hydrogens"]
+        if edit == "keep-protons-feedback-all":
+            # every hydrogen the program can build (--protonate-all), fed back with -k: still the default result
+            full = obs.run_single(text, ["--protonate-all"], with_atoms=True, write_pka=False)
+            counts["pipeline_runs"] += 1
+            if full.exc or len(full.rec["names"]) != 1:
+                return util.finish(case, viol, counts, classes, False, desc, inconclusive="--protonate-all run raised")
+            hyd = full.rec["confs"][full.rec["names"][0]]["hydrogens"]
+        hyd, nbad = without_contact_hydrogens(recs, hyd)
+        if nbad:
+            classes.append("feedback-without-contact-hydrogens")
         new, touched, orphans = sources.with_hydrogens(recs, hyd)
         added = touched
         opts, exact_text, tol = ["-k"], False, 1e-7
